@@ -8,9 +8,11 @@ import subprocess
 from concurrent.futures import ThreadPoolExecutor
 from fractions import Fraction
 
-from common import (CASES_HEADER, REPO, RUN, VERIF, Check, clist, coq_eval_parallel, cz, run_impl)
+from common import (CASES_HEADER, REPO, RUN, VERIF, Check, clist, coq_eval_parallel, coq_make, cz, run_impl)
 
-import c04_refs as R
+import sys
+sys.path.insert(0, os.path.join(VERIF, "harness", "impl"))
+import c04_refs as R  # noqa: E402
 
 IMPORTS = CASES_HEADER + "From PV Require Import C04.PermModel C04.CasesC04 C04.KernelDefs.\n"
 SRC_FILES = ["permanent.cpp", "permanent_laplace.cpp", "pfaffian.cpp", "torontonian.cpp",
@@ -72,6 +74,19 @@ def build_native(notes):
     return os.path.join(base, "driver_plain"), os.path.join(base, "driver_san")
 
 
+def san_key(rep):
+    """stable key of a sanitizer report: source file, function (ASan) or kind (UBSan)"""
+    for x in rep:
+        m = re.search(r"SUMMARY: AddressSanitizer: ([\w-]+) \S*?/src/([\w./]+):\d+ in (\w+)", x)
+        if m:
+            return "src/%s:%s:%s" % (m.group(2), m.group(3), m.group(1))
+    for x in rep:
+        m = re.search(r"/src/([\w./]+):\d+:\d+: runtime error: ([a-z -]+?)(?::| of | by | in |$)", x)
+        if m:
+            return "src/%s:%s" % (m.group(1), m.group(2).strip().replace(" ", "-"))
+    return "sanitizer-report"
+
+
 def run_native(exe, lines, san=False):
     env = dict(os.environ)
     env["OMP_NUM_THREADS"] = "4"
@@ -79,16 +94,41 @@ def run_native(exe, lines, san=False):
         env["UBSAN_OPTIONS"] = "print_stacktrace=0:halt_on_error=0"
         env["ASAN_OPTIONS"] = "detect_leaks=0:halt_on_error=1"
     outs, errs = [], []
-    # one process per case under the sanitizer so that a report is attributed to its case
     if san:
-        def one(l):
-            p = subprocess.run([exe], input=l + "\n", capture_output=True, text=True, timeout=600, env=env)
-            rep = [x for x in p.stderr.splitlines() if "runtime error" in x or "ERROR: AddressSanitizer" in x]
-            return (p.stdout.strip().splitlines() or ["crash rc=%d" % p.returncode])[-1], rep
-        with ThreadPoolExecutor(max_workers=4) as ex:
-            for o, e in ex.map(one, lines):
-                outs.append(o)
-                errs.append(e)
+        # a few processes, each running a slice; the driver prints "#case k" on stderr before
+        # each case, so a sanitizer report is attributed to its case; if the process dies
+        # (AddressSanitizer halts) the slice is resumed after the fatal case
+        def run_slice(sl):
+            res = []
+            start = 0
+            while start < len(sl):
+                p = subprocess.run([exe], input="\n".join(sl[start:]) + "\n", capture_output=True, text=True, timeout=1800, env=env)
+                so = p.stdout.strip().splitlines() if p.stdout.strip() else []
+                reps = {}
+                cur = -1
+                for x in p.stderr.splitlines():
+                    if x.startswith("#case "):
+                        cur = int(x.split()[1])
+                    elif "runtime error" in x or "ERROR: AddressSanitizer" in x or "SUMMARY: AddressSanitizer" in x:
+                        reps.setdefault(cur, []).append(x)
+                for k in range(len(so)):
+                    res.append((so[k], reps.get(k, [])))
+                if len(so) < len(sl) - start:
+                    res.append(("crash rc=%d" % p.returncode, reps.get(len(so), ["process died: " + p.stderr[-300:]])))
+                    start += len(so) + 1
+                else:
+                    start += len(so)
+            return res
+        nsl = 4
+        slices = [lines[k::nsl] for k in range(nsl)]
+        with ThreadPoolExecutor(max_workers=nsl) as ex:
+            rs = list(ex.map(run_slice, slices))
+        outs = [None] * len(lines)
+        errs = [None] * len(lines)
+        for k in range(nsl):
+            for t, (o, e) in enumerate(rs[k]):
+                outs[k + t * nsl] = o
+                errs[k + t * nsl] = e
         return outs, errs
     p = subprocess.run([exe], input="\n".join(lines) + "\n", capture_output=True, text=True, timeout=1800, env=env)
     outs = p.stdout.strip().splitlines()
@@ -271,14 +311,35 @@ def fits_float(c):
 
 
 def run(chk: Check):
-    chk.proofs(timeout=2400)
+    import time
+    t0 = time.time()
+    def lap(msg):
+        if os.environ.get("C04_TIMING"):
+            sys.stderr.write("[c04 %.0fs] %s\n" % (time.time() - t0, msg))
+    dev_skip = bool(os.environ.get("C04_DEV_SKIP_COQ_BUILD"))   # development aid only (mutation experiments
+    # while the shared build lock is contended): uses the .vo files as they are; the evidence says so
+    if not dev_skip:
+        chk.proofs(timeout=2400)
+    else:
+        chk.notes.append("DEVELOPMENT RUN: proofs not rebuilt (C04_DEV_SKIP_COQ_BUILD)")
     T = chk.thorough
     rng = chk.rng
     corr_broken = []
     notes = chk.notes
+    ok, log = (True, "") if dev_skip else coq_make(["theories/C04/CasesC04.vo", "theories/C04/KernelDefs.vo"])
+    if not ok:
+        corr_broken.append("the model files C04/CasesC04.v, C04/KernelDefs.v do not compile: " + log[-500:])
+        chk.finish(rule="-", explanation="model does not compile", correspondence_broken=corr_broken)
+    lap("coq built")
 
     # ------------------------------------------------------------ build + translator
     plain_exe, san_exe = build_native(notes)
+    lap("native built")
+    o0, _ = run_native(plain_exe, ["perm d 0 0 2 2 1 1 1 1 1 0 2 0 3 0 4 0"])
+    if o0[0].split()[:2] != ["ok", "10"]:
+        notes.append("observation (platform-dependent, not an input of the property): with std::thread::hardware_concurrency() == 0 "
+                     "(allowed by the C++ standard) permanent_cpp runs no job and returns %s instead of 10 for perm [[1,2],[3,4]]; "
+                     "optional patch fixes/C04-optional-hardware-concurrency-zero.diff; the theorems assume threads >= 1" % " ".join(o0[0].split()[1:]))
     wp = weight_widths("permanent.cpp", corr_broken)
     wl = weight_widths("permanent_laplace.cpp", corr_broken)
     if wp is None or wl is None:
@@ -309,12 +370,14 @@ def run(chk: Check):
     # ------------------------------------------------------------ implementation: fresh native build (+ sanitizer)
     lines = [native_line(c) for c in cases]
     nat_out, _ = run_native(plain_exe, lines)
+    lap("native run")
     san_idx = [i for i, c in enumerate(cases) if c["prec"] == "d" and c["T"] == 1 or c["cls"] in ("corpus", "high")]
     if not T:
         san_idx = [i for i in san_idx if cases[i]["cls"] != "small" or i % 2 == 0]
     san_out, san_err = run_native(san_exe, [lines[i] for i in san_idx], san=True)
     san_rep = {i: (o, e) for i, o, e in zip(san_idx, san_out, san_err)}
 
+    lap("sanitizer run")
     # shipped Python entry points on the same cases (T is not controllable there)
     py_cases = []
     py_idx = []
@@ -325,8 +388,14 @@ def run(chk: Check):
                              "int64": i % 7 == 0})
             py_idx.append(i)
     real_cases, haf_cases = R.gen_real_cases(rng, T), R.gen_haf_cases(rng, T)
+    for c in corpus:   # minimised past findings of the other kernels run first
+        if c.get("kind") in ("tor", "ltor", "pf"):
+            real_cases.insert(0, {k: c[k] for k in ("kind", "M", "y") if k in c} | {"prec": "d", "strided": False})
+        elif c.get("kind") in ("haf", "lhaf"):
+            haf_cases.insert(0, {k: c[k] for k in ("kind", "M", "occ", "diag") if k in c} | {"prec": "d", "strided": False})
     impl = run_impl("c04_impl.py", {"perm": py_cases, "haf": haf_cases, "real": real_cases}, timeout=3000)
     py_res = {i: r for i, r in zip(py_idx, impl["perm"])}
+    lap("python impl run")
 
     # ------------------------------------------------------------ model (Coq, exact) on the distinct (base, T) pairs
     mkeys = {}
@@ -360,6 +429,7 @@ def run(chk: Check):
                 f, wbin, w, Tn, coq_zi_matrix(M), nat_list(rows), nat_list(cols)))
         bodies.append(IMPORTS + "\n".join(parts) + "\n")
     outs = coq_eval_parallel("c04_perm", bodies, timeout=2400, jobs=4)
+    lap("coq model run")
     model = {}
     for ch, o in zip(chunks, outs):
         g = parse_all_ints(o)
@@ -444,7 +514,7 @@ def run(chk: Check):
             n_search += 1
             continue
         if ub:
-            chk.violation("C04:%s:sanitizer-report" % fname, "sanitizer report in the native kernel: %s" % ub[0][-160:],
+            chk.violation("C04:%s" % san_key(ub), "undefined behaviour in the native kernel (sanitizer): %s" % ub[-1][-200:],
                           dict(witness, ubsan=ub[:5]))
         if not in_float_range:
             continue
@@ -497,9 +567,14 @@ def run(chk: Check):
                note="classes: small (total<=8, <=6 modes, zeros allowed), plain (n<=8), high (total<=40, <=3 modes), malformed, corpus")
     chk.stream("permanent / Laplace: fresh native build vs defining sum in Python fractions (search)", n_search, len(seen_nontriv), kind="search")
 
+    lap("perm compared")
     # ------------------------------------------------------------ the other kernels
-    R.check_other_kernels(chk, impl, haf_cases, real_cases, plain_exe, san_exe, run_native, corr_broken, IMPORTS, parse_all_ints)
+    R.check_other_kernels(chk, impl, haf_cases, real_cases, plain_exe, san_exe, run_native, corr_broken, IMPORTS, parse_all_ints, san_key)
 
+    if os.environ.get("C04_DUMP"):
+        with open(os.environ["C04_DUMP"], "w") as fh:
+            json.dump({"violations": [{"key": v["key"], "what": v["what"]} for v in chk.violations],
+                       "corr_broken": corr_broken[:50], "notes": notes}, fh, indent=1)
     chk.assumptions += [
         "the Glynn/BBFG identity with multiplicities is a Section hypothesis of the *_partial theorem (see manifest); every other step from the C++ loop to the defining sum is proved",
         "g++/OpenMP compile the C++ sources as written; std::thread::hardware_concurrency is interposed by the driver",
